@@ -95,11 +95,6 @@ func coerceScalar(typ string, v interface{}) (interface{}, bool) {
 			if x == math.Trunc(x) && x >= math.MinInt32 && x <= math.MaxInt32 {
 				return int(x), true
 			}
-		case bool:
-			if x {
-				return 1, true
-			}
-			return 0, true
 		}
 	case "Boolean":
 		if b, ok := v.(bool); ok {
